@@ -140,6 +140,8 @@ type Exec struct {
 	curCall  ssa.Instruction
 	preAlloc string
 	calledNamed map[string]bool // contract keys mentioned in called("...") clauses of this unit
+	cellTypes map[string]types.Type // shared cells (escape.go): key -> type
+	succNamed map[string]bool // keys mentioned in succeeded("...") clauses of this unit
 }
 
 type privBox struct{ heap, ref string }
@@ -1020,6 +1022,16 @@ func (e *Exec) specEnvAt(fr *Frame, st *State) *SpecEnv {
 	for n, v := range fr.params {
 		env.vars[n] = v
 	}
+	// a closure sees the variables it captures (current values)
+	for fv, v := range fr.freeVars {
+		pt, ok := fv.Type().(*types.Pointer)
+		if !ok || v.Loc == nil || e.isModelStruct(pt.Elem()) {
+			continue
+		}
+		if v.Loc.Kind == LCell || v.Loc.Kind == LBox {
+			env.vars[fv.Name()] = Val{T: e.load(st, v.Loc), Typ: pt.Elem()}
+		}
+	}
 	for n, a := range fr.locals {
 		t := a.Type().(*types.Pointer).Elem()
 		loc := e.allocLoc(fr, st, a)
@@ -1095,6 +1107,15 @@ func (e *Exec) autoInvs(fr *Frame, st *State, hdr *ssa.BasicBlock, ord int) []au
 			if a, ok := u.X.(*ssa.Alloc); ok && a.Comment == "rangeindex" {
 				if v, ok := fr.regs[a]; ok && v.Loc != nil {
 					out = append(out, autoInv{"rangeindex", "range index >= -1", "(>= " + e.load(st, v.Loc) + " (- 1))"})
+					// ... and below the bound it is compared with (t = index+1; t < bound)
+					for _, in := range hdr.Instrs {
+						if b, ok := in.(*ssa.BinOp); ok && b.Op == token.LSS {
+							if bv, ok := fr.regs[b.Y]; ok && bv.T != "" && bv.Loc == nil {
+								ri := e.load(st, v.Loc)
+								out = append(out, autoInv{"rangebound", "range index below the length", "(or (= " + ri + " (- 1)) (< " + ri + " " + bv.T + "))"})
+							}
+						}
+					}
 				}
 			}
 		}
@@ -1204,6 +1225,29 @@ func (e *Exec) enterLoop(fr *Frame, st *State, hdr *ssa.BasicBlock, ord int, bod
 					}
 				}
 			}
+		}
+	}
+	// shared cells (captured locals, see escape.go) written by the loop body or by closures it runs;
+	// when the body calls unknown code through function values, every shared cell
+	{
+		written := map[string]bool{}
+		cellsWritten(fr.fn, body, written, map[*ssa.Function]bool{}, 0)
+		var keys []string
+		for k := range ns.cells {
+			if strings.HasPrefix(k, "pc.") && (written[k] || all) {
+				keys = append(keys, k)
+			}
+		}
+		sort.Strings(keys)
+		for _, k := range keys {
+			t := e.cellTypes[k]
+			if t == nil {
+				continue
+			}
+			n := e.sc.freshConst("lc."+k, e.sc.sortOf(t))
+			ns.cells[k] = n
+			e.sc.assume(st.reach, e.sc.rangeFact(n, t))
+			e.sc.assume(st.reach, e.allocFact(ns, n, t))
 		}
 	}
 	env := e.specEnvAt(fr, ns)
